@@ -61,7 +61,7 @@ func main() {
 			fmt.Println(err)
 			os.Exit(2)
 		}
-		out := knownFuncs{Functions: map[string][]string{}, Types: map[string][]string{}}
+		out := knownFuncs{Functions: map[string][]string{}, Types: map[string][]string{}, Prints: map[string]map[string]funcPrint{}, Fields: map[string]map[string][][2]string{}, Vars: map[string]map[string]string{}}
 		out.Provenance = "functions, methods and named types declared in non-test code of the pinned tree (after the fix commits); any other unexported function is treated as a newly extracted helper and inlined before analysis, and local variables of any other struct type are split into one variable per field (normalize.go).  Regenerate with: ntripcheck -gen-known -repo /repo"
 		for _, pk := range p.Pkgs {
 			for _, f := range pk.Syntax {
@@ -70,11 +70,49 @@ func main() {
 					case *ast.FuncDecl:
 						if obj, _ := pk.TypesInfo.Defs[x.Name].(*types.Func); obj != nil {
 							out.Functions[rel(pk.PkgPath)] = append(out.Functions[rel(pk.PkgPath)], funcKey(obj))
+							if out.Prints[rel(pk.PkgPath)] == nil {
+								out.Prints[rel(pk.PkgPath)] = map[string]funcPrint{}
+							}
+							out.Prints[rel(pk.PkgPath)][funcKey(obj)] = funcFingerprint(pk.Types, pk.TypesInfo, x)
 						}
 					case *ast.GenDecl:
 						for _, sp := range x.Specs {
+							if vs, ok := sp.(*ast.ValueSpec); ok && x.Tok == token.VAR {
+								for _, nm := range vs.Names {
+									if v, _ := pk.TypesInfo.Defs[nm].(*types.Var); v != nil && !v.Exported() && nm.Name != "_" {
+										q := func(p *types.Package) string {
+											if p == pk.Types {
+												return ""
+											}
+											return p.Path()
+										}
+										if out.Vars[rel(pk.PkgPath)] == nil {
+											out.Vars[rel(pk.PkgPath)] = map[string]string{}
+										}
+										out.Vars[rel(pk.PkgPath)][nm.Name] = types.TypeString(v.Type(), q)
+									}
+								}
+							}
 							if ts, ok := sp.(*ast.TypeSpec); ok {
 								out.Types[rel(pk.PkgPath)] = append(out.Types[rel(pk.PkgPath)], ts.Name.Name)
+								if tn, _ := pk.TypesInfo.Defs[ts.Name].(*types.TypeName); tn != nil {
+									if st, ok := tn.Type().Underlying().(*types.Struct); ok {
+										q := func(p *types.Package) string {
+											if p == pk.Types {
+												return ""
+											}
+											return p.Path()
+										}
+										var fl [][2]string
+										for i := 0; i < st.NumFields(); i++ {
+											fl = append(fl, [2]string{st.Field(i).Name(), types.TypeString(st.Field(i).Type(), q)})
+										}
+										if out.Fields[rel(pk.PkgPath)] == nil {
+											out.Fields[rel(pk.PkgPath)] = map[string][][2]string{}
+										}
+										out.Fields[rel(pk.PkgPath)][ts.Name.Name] = fl
+									}
+								}
 							}
 						}
 					}
